@@ -302,7 +302,7 @@ _HIST = [PJ_ + f for PJ_ in ("ecdsa.ellipticcurve.PointJacobi.",) for f in ("__g
     ["ecdsa.ecdsa.Public_key.__eq__", "ecdsa.ecdsa.Private_key.__eq__", _K + "VerifyingKey.__eq__", _K + "SigningKey.__eq__", _K + "VerifyingKey.precompute"]
 PROPS["C19"] = dict(
     level="other",
-    functions=_OBJ + _AFF + _HIST,
+    functions=_OBJ + _AFF + _HIST + ["ecdsa.ellipticcurve.PointJacobi." + f for f in ("_maybe_precompute", "_mul_precompute", "__mul__", "__rmul__", "mul_add")],
     lemmas=[],
     bounded=[dict(function="ecdsa.ellipticcurve.PointJacobi.__mul__", label="operation histories against the affine reference model", role="bounded stand-in for the history quantifier (and for the scalar-multiplication / table steps of a history)",
                   bound="random walks of 1..8 public operations (x, y, scale, to_affine, double, neg, add, mul, eq, pickle round trip, mul_add, affine + jacobi) over a pool of 3..8 live points in 4 stored representations on toy curves of prime order over F_p, p <= 17 (quick: 400 walks per curve) / 31 (thorough: 5000); then every live object is compared with a fresh object of the same value on 7 observers; == against value equality on all representation pairs",
@@ -310,7 +310,27 @@ PROPS["C19"] = dict(
     min_obligations=60,
     trusted_base=["field axioms of F_p; sympy normal forms (see C06)",
                   "induction over the length of a history: every public method preserves the view of every live object and its result is a function of views only (the per-method obligations are discharged, the induction step is a meta-argument)",
-                  "PointJacobi.__mul__ / mul_add inside VerifyingKey.precompute are applied by their frame contract (may rescale the stored triple to the same view, may publish the table): proved at the group level in C07",
+                  "PointJacobi.__mul__ inside VerifyingKey.precompute is applied by its frame contract (may rescale the stored triple to the same view, may publish the table); that frame is discharged at the group level (obligations frame-operand-keeps-its-value, table-of-the-view, published-table-never-replaced)",
+                  "group level (see C07): REP/ISO abstraction of the C06 contracts; no point of order 2 (F6)",
                   "pickle itself (the protocol between __getstate__ and __setstate__) hands over the state dictionary unchanged"],
     explanation="object-level contracts in field mode: every PointJacobi / Point method is specified through the view (the denoted affine point) of its operands only, preserves the view of every operand and writes nothing but a view-preserving __coords; __getstate__/__setstate__ copy exactly the fields; key equality is equality of curve parameters, views (and scalars) for every stored representation; VerifyingKey.precompute replaces the point by one of equal view",
+)
+
+_PJ = "ecdsa.ellipticcurve.PointJacobi."
+_MULS = [_PJ + f for f in ("_naf", "_maybe_precompute", "_mul_precompute", "__mul__", "__rmul__", "mul_add")]
+PROPS["C07"] = dict(
+    level="other",
+    functions=_MULS + [_PJ + "_add", _PJ + "_double", _PJ + "scale", _PJ + "x", _PJ + "y", _PJ + "double", _PJ + "__add__", _PJ + "from_affine"],
+    lemmas=[],
+    bounded=[dict(function=_PJ + "__mul__", label="k*P, P*k, mul_add and legacy Point.__mul__ against the k-fold sum", role="bounded stand-in for legacy Point.__mul__; CPython cross-check of the group-level contracts",
+                  bound="toy curves of prime order over F_p, p <= 13 (quick) / 31 (thorough): every k in [-3, 2n+3] x points x {order, no order, generator table, scaled representation}; mul_add for a in [-2, n+2] x 8 structured b x Q in {O, P, -P, others}; structured scalars (0, 1, n-1, n, n+1, 2n, 2n+1, negative, 5n+7, 2^300+1) on NIST256p, secp256k1, brainpoolP160r1",
+                  run=_c07_b)],
+    min_obligations=60,
+    trusted_base=["group level: the C06 contracts of _add / _double / scale / x / y / double / __add__ (REP(X, Y, Z, a, b): a valid triple denoting a*P + b*Q; results reduced)",
+                  "no point of order 2 takes part (finding F6), i.e. the odd prime group order of the property's hypothesis; (X, -Y, Z) denotes the inverse of (X, Y, Z)",
+                  "the declared order annihilates every point taking part (hypothesis of the property): c*P = k*P whenever c == k (mod order); the congruence itself is decided by polynomial normal form (sympy) after opening `x mod (t*order)`",
+                  "signed-digit recoding is specified by REM(m, 0) = m, REM(m, i+1) = (REM(m, i) - dig(REM(m, i))) / 2 (definitions instantiated as ground facts); lemma `REM(m, i) = 0 => REM(m, j) = 0 for j >= i` by induction (checked on the concrete definition for |m| <= 40)",
+                  "legacy Point.__mul__: bounded stand-in only; where mul_add meets it (affine operand, zero multiplier) its contract is assumed",
+                  "z3 integers are mathematical: Python ints are unbounded, so this is exact"],
+    explanation="scalar multiplication verified over the free abelian group on the base points: _naf returns the non-adjacent form (loop invariant over the digit list), _maybe_precompute builds the table of 2^j P long enough for scalars below 2*order (quantified loop invariant), _mul_precompute and the NAF loop of __mul__ keep `accumulator = processed digits times P` (nonlinear invariant other*2^j <= ... for the table walk), mul_add keeps `accumulator = REM(a)P + REM(b)Q` over the padded digit lists for every operand kind (Jacobian, affine, INFINITY, the same object) and every early exit; the result object denotes c*P + d*Q with c, d congruent to the multipliers modulo the declared order",
 )
